@@ -501,6 +501,41 @@ def check_grid(ctx, eng, w, h, d, per, do_engine=True, do_kin=True, tag=""):
             ctx.violation("g2g-adjacency", "edges of grid_to_graph(%dx%dx%d %s) are not the face pairs of the grid: %r" % (w, h, d, pkey, diff),
                           gcase, impl=sorted(mult.items())[:12], expected=sorted(want.items())[:12])
 
+    # ------------------------------------------------------------------ F'. the same with a cell volume that carries its OWN unit
+    # (text / UnitValue in a space unit other than the grid's units-system one): judged in SI, value AND unit label together
+    from strengths import UnitValue
+    from props.c06 import si_space
+    fsel = (w + h * 2 + d * 5 + 3 * sum(per)) % 6
+    ftext, fa_si = [("8 nm3", Fraction(2, 10 ** 9)), ("27 mm3", Fraction(3, 1000)), ("1 pL", Fraction(1, 10 ** 5)),
+                    ("8 fL", Fraction(2, 10 ** 6)), ("0.125 m3", Fraction(1, 2)), ("64 dm3", Fraction(4, 10))][fsel]
+    fvol = ftext if (w + h + d) % 2 == 0 else UnitValue(ftext)
+    g3 = mk_grid(w, h, d, per, cell_vol=fvol, cell_env=envs, units=units)
+    gr3, eg3 = call(grid_to_graph, g3)
+    fcase = grid_case(w, h, d, per, kind="g2g", cell_vol=ftext, cell_vol_form="text" if isinstance(fvol, str) else "UnitValue",
+                      envs=envs, units=units)
+    ctx.case(("g2gu", dims, per), nontrivial=nontriv)
+    ctx.count("g2g_foreign_unit_volume")
+    if eg3 is not None:
+        ctx.violation("g2g-raises", "grid_to_graph raised %s on a grid whose cell volume is %s" % (eg3, ftext), fcase, impl=eg3, expected="graph")
+    else:
+        def si_of(x, dim):
+            u = x.units
+            if (u.dim.space, u.dim.time, u.dim.quantity) != (dim, 0, 0):
+                return None
+            return frac(x.value) * si_space(u.sys.space) ** dim
+        badn = [(i, str(nd.volume)) for i, nd in enumerate(gr3.nodes)
+                if si_of(nd.volume, 3) is None or not close(si_of(nd.volume, 3), fa_si ** 3) or nd.environment != envs[i]]
+        bade = [(e.i, e.j, str(e.surface), str(e.distance)) for e in gr3.edges
+                if si_of(e.surface, 2) is None or si_of(e.distance, 1) is None
+                or not close(si_of(e.surface, 2), fa_si ** 2) or not close(si_of(e.distance, 1), fa_si)]
+        if len(gr3.nodes) != n or badn:
+            ctx.violation("g2g-nodes", "grid_to_graph of a grid with cell volume %s: node volumes / environments are not the cells'" % ftext, fcase,
+                          impl=badn[:4], expected={"volume_m3": float(fa_si ** 3), "envs": envs})
+        if bade:
+            ctx.violation("g2g-geometry", "grid_to_graph of a grid with cell volume %s: edge surface / distance (with their units) are not the "
+                          "cell face %.3g m2 / the cell edge %.3g m" % (ftext, float(fa_si ** 2), float(fa_si)), fcase,
+                          impl=bade[:4], expected={"surface_m2": float(fa_si ** 2), "distance_m": float(fa_si)})
+
     # ------------------------------------------------------------------ E. engine neighbour relation (Euler steps)
     eng_counts = None
     if do_engine and eng is not None:
@@ -856,7 +891,9 @@ def random_system_desc(rng, small):
     return {"w": w, "h": h, "d": d, "periodic": list(per), "envs": envs, "species": species, "reactions": reactions,
             "a": rstr(a), "cell_env": [rng.randrange(len(envs)) for _ in range(n)],
             "state": [float(rng.choice([0, 1, 2, 5, 0.5, 10])) for _ in range(n * nsp)],
-            "units": rng.choice([None, None, ["m", "s", "mol"], ["nm", "ms", "molecule"]])}
+            "units": rng.choice([None, None, ["m", "s", "mol"], ["nm", "ms", "molecule"]]),
+            # the cell volume a^3 written as a number in the grid's units, or as text / UnitValue in ANOTHER space unit
+            "vol_unit": rng.choice([None, None, "nm", "mm", "µm", "dm"]), "vol_form": rng.choice(["text", "uval"])}
 
 
 def build_systems(desc):
@@ -867,7 +904,15 @@ def build_systems(desc):
     rs = [Reaction(r["eq"], kf=r["kf"], kr=r["kr"], units_system=us) for r in desc["reactions"]]
     net = RDNetwork(species=sp, reactions=rs, environments=desc["envs"], units_system=us)
     a = Fraction(desc["a"])
-    grid = mk_grid(desc["w"], desc["h"], desc["d"], tuple(desc["periodic"]), cell_vol=float(a ** 3), cell_env=desc["cell_env"],
+    cv = float(a ** 3)
+    if desc.get("vol_unit"):
+        # the SAME physical cell (edge a in the grid's space unit), written in another space unit
+        from strengths import UnitValue
+        from props.c06 import si_space
+        gunit = desc["units"][0] if desc["units"] else "µm"
+        cv = float(a ** 3 * (si_space(gunit) / si_space(desc["vol_unit"])) ** 3)
+        cv = "%r %s3" % (cv, desc["vol_unit"]) if desc.get("vol_form") == "text" else UnitValue(cv, desc["vol_unit"] + "3")
+    grid = mk_grid(desc["w"], desc["h"], desc["d"], tuple(desc["periodic"]), cell_vol=cv, cell_env=desc["cell_env"],
                    units=desc["units"])
     s_grid = RDSystem(net, grid, state=list(desc["state"]), units_system=us)
     s_graph = RDSystem(net, grid_to_graph(grid), state=list(desc["state"]), units_system=us)
